@@ -70,7 +70,11 @@ func (state *singleRateLimitState) Counter() int64 {
 	state.mutex.Lock()
 	defer state.mutex.Unlock()
 
-	state.ensureWindowIsUpdated()
+	// Reading the counter must not move the window: that is TryToIncrement's job
+	// (moving it here credited spillover for every idle window a metrics scrape happened in).
+	if !state.clock.Now().Before(state.windowEndTime) {
+		return 0
+	}
 	return state.counter
 }
 
